@@ -137,6 +137,53 @@ pub fn check_pair(sh: &mut Shard, r: &mut Rng, a: &IG, b: &IG, lat: &Lat, verbos
     sh.sample(|| json!({"a": format!("{:?}", ga), "b": format!("{:?}", gb), "matrix": exp, "classes": orc.classes.names()}));
 }
 
+/// Rect as the polygon it stands for (a sheared rectangle is no Rect)
+fn unrect(g: &IG) -> IG {
+    match g {
+        IG::Rect(a, b) => IG::Polygon(vec![IG::rect_ring(*a, *b)]),
+        IG::Collection(v) => IG::Collection(v.iter().map(unrect).collect()),
+        x => x.clone(),
+    }
+}
+
+/// The DE-9IM matrix is invariant under a linear bijection of the plane. The unimodular integer map
+/// (i,j) -> ((L+1)i + Lj, Li + (L-1)j) (determinant -1) sends the small lattice operands to operands with
+/// coordinates around L·g whose edges are all nearly parallel: every direction comparison and orientation
+/// test in relate now has products beyond 2^53 and must still be decided exactly. Expected: the oracle's
+/// matrix of the small pre-images.
+pub fn check_sheared(sh: &mut Shard, a: &IG, b: &IG, l: i64, verbose: bool) {
+    let (ma, mb) = (a.to_model(), b.to_model());
+    let orc = match guard(|| model::relate(&ma, &mb)) {
+        Ok(o) => o,
+        Err(_) => return,
+    };
+    let exp = mstr(&orc.m);
+    let f = move |p: IP| ((l + 1) * p.0 + l * p.1, l * p.0 + (l - 1) * p.1);
+    let (sa, sb) = (unrect(a).map(&f), unrect(b).map(&f));
+    let (ga, gb) = (sa.to_geo(&Lat::ID), sb.to_geo(&Lat::ID));
+    let pair = format!("{}x{}", sa.kind(), sb.kind());
+    sh.eval(1);
+    let det = |got: &str| json!({"property": "C01", "check": "relate.sheared", "kind": "sheared", "a": a.json(), "b": b.json(), "L": l, "expected": exp, "got": got,
+        "a_geo": format!("{:?}", ga), "b_geo": format!("{:?}", gb), "classes": orc.classes.names()});
+    match relate_enum(&ga, &gb) {
+        Ok(got) => {
+            if verbose {
+                println!("relate of the sheared pair (L = {l}) {pair}: expected {exp} got {got}");
+            }
+            if got != exp {
+                // known finding: where the operands cross properly, the node is a computed point; between two nearly
+                // parallel edges of length ~L·g it is off by far more than the width of what it should fall into,
+                // and relate labels it wrongly. Attributed only in this stratum and only with a proper crossing;
+                // without one every predicate involved is exact and any wrong matrix is a violation.
+                let kc = if orc.classes.0 & Classes::PROPER_CROSSING != 0 { "relate_ill_conditioned_crossing" } else { "-" };
+                sh.violation(&format!("relate.sheared|{pair}|{kc}"), det(&got));
+            }
+        }
+        Err(p) => sh.violation(&format!("relate.sheared.panic|{pair}|-"), det(&p)),
+    }
+    sh.class("sheared_pair");
+}
+
 pub fn gen_case(r: &mut Rng) -> (IG, IG, Lat) {
     let g = *r.pick(&[3i64, 3, 4, 4, 4, 5, 5, 6, 8, 12]);
     let a = gen_any(r, g);
@@ -166,6 +213,10 @@ pub fn run(ctx: &Ctx, sh: &mut Shard) {
             continue;
         }
         check_pair(sh, &mut r, &a, &b, &lat, false);
+        if k % 4 == 0 {
+            let l = *r.pick(&[1i64 << 27, 100_000_000, 1 << 30, 3 << 28, (1 << 29) + 12345]);
+            check_sheared(sh, &a, &b, l, false);
+        }
     }
 }
 
@@ -208,6 +259,10 @@ fn exhaustive_small(sh: &mut Shard, g: i64) {
 pub fn replay(v: &Value, sh: &mut Shard) {
     let a = IG::from_json(&v["a"]).expect("a");
     let b = IG::from_json(&v["b"]).expect("b");
+    if v["kind"].as_str() == Some("sheared") {
+        check_sheared(sh, &a, &b, v["L"].as_i64().unwrap(), true);
+        return;
+    }
     let lat = Lat::from_json(&v["lat"]);
     let mut r = Rng::new(1);
     println!("A = {:?}\nB = {:?}", a.to_geo(&lat), b.to_geo(&lat));
